@@ -56,6 +56,7 @@ def _show(g, p):
 
 class Coins(object):
     """scripts the kernel's numpy.random.randint(2) draws (interpreted mode only)."""
+    intercepted = 0
 
     def __init__(self, bits):
         self.bits = list(bits)
@@ -70,9 +71,10 @@ class Coins(object):
         np.random.randint = self.orig
 
     def fake(self, *a, **k):
-        if a == (2,) and not k:
+        if (a == (2,) or a == (0, 2)) and not k:
             b = self.bits[self.used] if self.used < len(self.bits) else 0
             self.used += 1
+            Coins.intercepted += 1
             return b
         return self.orig(*a, **k)
 
@@ -257,6 +259,7 @@ def run_sched(shard, rec, B):
         want = oracle_outcomes(tg, tp, r, og, op)
         seen = set()
         nrands = set()
+        Coins.intercepted = 0
         for coins in itertools.product((0, 1), repeat=len(og)):
             res = measure_case(rec, B, tg, tp, r, og, op, coins=coins, repeat=(sum(coins) == 0))
             if res is None:
@@ -265,6 +268,20 @@ def run_sched(shard, rec, B):
             nrands.add(res[1])
         else:
             k = max(nrands)
+            if k > 0 and Coins.intercepted == 0:
+                # the kernel no longer draws its coin through numpy.random.randint(2): scripting is impossible, so the same
+                # clause (every possible outcome vector occurs, no impossible one does) is decided by repetition instead:
+                # a possible vector missing after 64*2^k fair tries has probability < e^-64
+                rec.event("schedule.unscripted")
+                tries = 0
+                while seen != want and tries < 64 * 2 ** k:
+                    tries += 1
+                    res = measure_case(rec, B, tg, tp, r, og, op, repeat=False)
+                    if res is None:
+                        break
+                    seen.add(tuple(int(x) for x in res[0]))
+            else:
+                rec.event("schedule.scripted")
             rec.check("schedule.%d" % len(og), seen == want, {"state": {"rows": _show(tg, tp), "r": r}, "obs": _show(og, op)}, True,
                       expected=sorted(want), observed=sorted(seen))
 
